@@ -177,6 +177,42 @@ def last_use_window_arg(y: f32[4], o: f32[4]):
     consume(4, t[4:8], o[0:4])
 
 
-PROCS = [last_use_cfg, last_use_cfg_branch, last_use_cfg_loop, last_use_reduce, last_use_window_arg, win_of_alloc, win_of_win, win_in_loop, alloc_in_branch, interleaved, alloc_in_loop, unused_alloc,
+# ---- two variants of one procedure that share their parameter symbols (partial_eval / simplify keep them) but differ
+#      in which window parameters they write: each call site must use the struct its own callee declares
+@proc
+def cvar(clear: bool, n: size, a: [f32][n], b: [f32][n]):
+    if clear:
+        for j in seq(0, n):
+            a[j] = 0.0
+    for j in seq(0, n):
+        b[j] += a[j]
+
+
+def _cvar0():
+    from exo.stdlib.scheduling import simplify, rename, eliminate_dead_code
+    q = cvar.partial_eval(clear=False)
+    try:
+        q = eliminate_dead_code(q, q.find("if _: _"))
+    except Exception:
+        q = simplify(q)
+    return rename(q, "cvar0")
+
+
+cvar0 = _cvar0()
+
+
+@proc
+def cvar_caller(n: size, x: f32[n], y: f32[n]):
+    cvar(True, n, x[0:n], y[0:n])
+    cvar0(n, x[0:n], y[0:n])
+
+
+@proc
+def cvar_caller2(n: size, x: f32[n], y: f32[n]):
+    cvar0(n, x[0:n], y[0:n])
+    cvar(True, n, x[0:n], y[0:n])
+
+
+PROCS = [cvar_caller, cvar_caller2, last_use_cfg, last_use_cfg_branch, last_use_cfg_loop, last_use_reduce, last_use_window_arg, win_of_alloc, win_of_win, win_in_loop, alloc_in_branch, interleaved, alloc_in_loop, unused_alloc,
          scalar_alloc_call, stack_mem]
 CONFIGS = [MemCfg]
